@@ -2,7 +2,7 @@
 from ..ir import AnalysisBroken, strip_targs, qmatch
 from ..graph import Graph
 from ..expr import access_path, path_str, held_locks, reaching_defs, norm_cond, origins, leaves, defs_in_node
-from .common import strip_casts, short, comparison, FLIP, member_funcs
+from .common import strip_casts, short, comparison, FLIP, member_funcs, subtree_through_locals
 
 UNITS = ['sdk/src/metrics/state/temporal_metric_storage.cc', 'sdk/src/metrics/state/sync_metric_storage.cc',
          'sdk/src/metrics/aggregation/sum_aggregation.cc', 'sdk/src/metrics/meter.cc',
@@ -178,6 +178,22 @@ def build_metrics_rules(ck, prog, rule3='C06.R3', rule4='C06.R4', fname='sdk::me
             why = 'the loop over the collectors can skip collectors or does not key the stash by the loop\'s collector'
         else:
             why = 'the delta is not appended inside a loop over all collectors'
+    if not ok:
+        # the same fan-out written as std::for_each(collectors.begin(), collectors.end(), [..](col) { stash[col].push_back(delta); })
+        for n in f.nodes:
+            if n['k'] == 'call' and strip_targs(n.get('c', '')) == 'std::for_each' and len(n.get('args', [])) >= 3:
+                ends = [(strip_targs(f.nodes[k].get('c', '')).rsplit('::', 1)[-1], strip_casts(f, f.nodes[k]['obj']).get('id') if f.nodes[k].get('obj') is not None else None)
+                        for a in n['args'][:2] for k in f.subtree(a) if f.nodes[k]['k'] == 'call' and strip_targs(f.nodes[k].get('c', '')).rsplit('::', 1)[-1] in ('begin', 'end', 'cbegin', 'cend')]
+                lams = [prog.funcs[f.nodes[k]['fn']] for k in f.subtree(n['args'][2]) if f.nodes[k]['k'] == 'lambda' and f.nodes[k].get('fn') in prog.funcs]
+                if [e[0] for e in ends][:2] not in (['begin', 'end'], ['cbegin', 'cend']) or any(e[1] != cols['id'] for e in ends[:2]) or not lams:
+                    continue
+                lf = lams[0]
+                lp = [m for m in lf.nodes if m['k'] == 'call' and strip_targs(m.get('c', '')).rsplit('::', 1)[-1] in ('push_back', 'emplace_back') and
+                      m.get('obj') is not None and access_path(lf, m['obj'])[:2] == ('this', 'unreported_metrics_')]
+                branching = [m for m in lf.nodes if m['k'] in ('if', 'cond', 'return', 'SwitchStmt') or (m['k'] == 'binop' and m['op'] in ('&&', '||'))]
+                if lp and not branching and lf.params and any(lf.nodes[k]['k'] == 'ref' and lf.nodes[k].get('id') == lf.params[0]['id'] for k in lf.subtree(lp[0]['obj'])):
+                    ok = True
+                    pushes = [g.point_of[(id(g.root_ctx), n['i'])]] if (id(g.root_ctx), n['i']) in g.point_of else pushes
     ck.verdict(ok, rule3, f, 'delta-to-every-collector', pushes[0].n if pushes else None, 'delta appended to every collector\'s stash' if ok else why + ': other readers never see these measurements')
     # R3b: every callback behind the single-collector edge or after the own-stash lookup
     for i, cb in enumerate(callbacks):
@@ -398,8 +414,9 @@ def rule_r6(ck, prog, rule='C06.R6'):
             ok = len(ops) == 1 and ops[0]['op'] == op
             if ok:
                 def side(idx):
-                    refs = {f.nodes[i]['name'] for i in f.subtree(idx) if f.nodes[i]['k'] == 'ref' and f.nodes[i].get('sk') == 'param'}
-                    this = any(f.nodes[i]['k'] == 'this' for i in f.subtree(idx))
+                    sub = subtree_through_locals(f, idx)      # (operands may be named locals read through a helper)
+                    refs = {f.nodes[i]['name'] for i in sub if f.nodes[i]['k'] == 'ref' and f.nodes[i].get('sk') == 'param'}
+                    this = any(f.nodes[i]['k'] == 'this' for i in sub)
                     return ('arg' if refs else '') + ('this' if this and not refs else '')
                 l, r = side(ops[0]['lhs']), side(ops[0]['rhs'])
                 ok = {l, r} == {'arg', 'this'} and (op == '+' or (l == 'arg' and r == 'this'))
